@@ -208,6 +208,11 @@ def step (p : Pool) (op : Json) : Pool × Json :=
   else if o = "sq.setSR" then withSq p op (fun s => ⟨s.setSR (fVal op "v"), none⟩)
   else if o = "sq.setAmp" then withSq p op (fun s => ⟨s.setChannelAmplitude (asChan (getField op "ch")) (fVal op "v"), none⟩)
   else if o = "sq.setOff" then withSq p op (fun s => ⟨s.setChannelOffset (asChan (getField op "ch")) (fVal op "v"), none⟩)
+  else if o = "sq.setRange" then
+    -- the deprecated `setChannelVoltageRange(channel, ampl, offset)`: both settings at once
+    withSq p op (fun s => ⟨(s.setChannelAmplitude (asChan (getField op "ch")) (fVal op "ampl")).setChannelOffset
+      (asChan (getField op "ch")) (fVal op "offset"), none⟩)
+  else if o = "sq.len" then readSq p op (fun s => (s.data.length : Int)) (fun n => jOk (jInt n))
   else if o = "sq.setDelay" then withSq p op (fun s => ⟨s.setChannelDelay (asChan (getField op "ch")) (fVal op "v"), none⟩)
   else if o = "sq.setFilter" then
     withSq p op (fun s => s.setChannelFilterCompensation (asChan (getField op "ch")) (fStr op "kind") (fInt op "order")
@@ -401,6 +406,9 @@ def heapStep (d : HeapDrv) (op : Json) (r : Json) (p' : Pool) : HeapDrv :=
   else if o = "sq.setSR" then (if ok then hAct d id (fun s => Heap.sqSetSpec t s "SR") else refused id)
   else if o = "sq.setAmp" then (if ok then hAct d id (fun s => Heap.sqSetSpec t s ("amp:" ++ chanKey (getField op "ch"))) else refused id)
   else if o = "sq.setOff" then (if ok then hAct d id (fun s => Heap.sqSetSpec t s ("off:" ++ chanKey (getField op "ch"))) else refused id)
+  else if o = "sq.setRange" then
+    (if ok then hAct (hAct d id (fun s => Heap.sqSetSpec t s ("amp:" ++ chanKey (getField op "ch")))) id
+      (fun s => Heap.sqSetSpec t s ("off:" ++ chanKey (getField op "ch"))) else refused id)
   else if o = "sq.setDelay" then (if ok then hAct d id (fun s => Heap.sqSetSpec t s ("delay:" ++ chanKey (getField op "ch"))) else refused id)
   else if o = "sq.setFilter" then
     if ok then hAct d id (fun s => Heap.sqSetFilter t s ("filter:" ++ chanKey (getField op "ch"))) else refused id
